@@ -278,7 +278,7 @@ def run(tier, seed):
                                     theorem=pg['theorems'], problems=pg['problems']), False))
     ncases = 60 if tier == 'quick' else 800
     cases = [seed * 100000 + 7000 + i for i in range(ncases)]
-    for r in core.run_cases(run_case, cases):
+    for r in core.run_cases(run_case, core.with_corpus(PID, cases)):
         rep.merge(r)
     rep.obligation('correspondence: Mandoline.Slice3D.slice3d (left / right sample of every pixel: values, normal coordinate, level) = '
                    'the samples that reproduce the array returned by Mandoline.slice bit for bit',
